@@ -22,7 +22,12 @@ func VerifH_C19_Validate() {
 	cal := &ical.Calendar{Component: &ical.Component{Name: ical.CompCalendar, Props: ical.Props{}}}
 	hasMethod := vrt.Bool("method")
 	if hasMethod {
-		cal.Props[ical.PropMethod] = []ical.Prop{{Name: ical.PropMethod, Value: "PUBLISH"}}
+		// any value, the empty one included: presence alone disqualifies
+		mv := vrt.StrN("method-value", vrt.Choose("method-len", 3))
+		for k := 0; k < len(mv); k++ {
+			vrt.Assume(mv[k] != '\\')
+		}
+		cal.Props[ical.PropMethod] = []ical.Prop{{Name: ical.PropMethod, Value: mv}}
 	}
 	names := make([]string, n)
 	uids := make([]string, n)
